@@ -509,6 +509,17 @@ impl SignatureConfig {
                 Ok(0)
             }
             SignatureVersion::V4 | SignatureVersion::V6 => {
+                // The salt size of a v6 signature is tied to the hash algorithm
+                // (https://www.rfc-editor.org/rfc/rfc9580.html#section-5.2.3-2.10.2.1.1)
+                if let SignatureVersionSpecific::V6 { salt } = &self.version_specific {
+                    ensure!(
+                        self.hash_alg.salt_len() == Some(salt.len()),
+                        "Illegal salt length {} for a V6 Signature using {:?}",
+                        salt.len(),
+                        self.hash_alg
+                    );
+                }
+
                 // TODO: reduce duplication with serialization code
 
                 let mut res = vec![
